@@ -166,6 +166,35 @@ def fkm_negation(o):
     o.note("path-wise relational check of the FKM loops is structural here (same number of paths); the value relation is the lemma 'HCM tests invariant under negation'")
 
 
+# the FKM detector: its loop is proved (C02 generator fkm.process.step=HCM-step, run here as an obligation of C03 as well) to be, step by step, a rule that looks at the
+# stack values, the current turn and the largest |turn| only through absolute values of values and of differences; such a rule commutes with negation (lemma below)
+from contracts import c02 as _c02                                    # noqa: E402
+obligation('C03', 'fkm.step=abs-value-rule', functions=[FKM + '.process'])(_c02.fkm_step)
+
+
+@obligation('C03', 'lemma.fkm-step-negation')
+def fkm_step_negation(o):
+    """the step rule of fkm.step=abs-value-rule is invariant under negation of the stack values and of the current turn: same closing decision, same 'apply again'
+    decision, same IR update; the recorded pair and the pushed value are negated (hence, by induction over the steps, negating the signal negates cycles and residuals)"""
+    k, J, I_, mx = o.reals('K J I max_turn')
+    n, ir = o.ints('IZ IR')
+    o.assume(mx >= 0)
+
+    def ab(x):
+        return z3.If(x >= 0, x, -x)
+
+    def rule(k_, j_, i_):
+        closing = z3.And(n > ir, ab(k_ - j_) >= ab(j_ - i_))
+        again = z3.And(closing, ab(j_) < mx, ab(i_) < mx)
+        ir_up = z3.And(n == ir, ab(k_) > mx)
+        newmax = z3.If(ab(k_) >= mx, ab(k_), mx)
+        return closing, again, ir_up, newmax
+    a, b = rule(k, J, I_), rule(-k, -J, -I_)
+    for nm, x, y in zip(('closing decision', "'apply again' decision", 'IR update', 'largest |turn| after the push'), a, b):
+        o.prove(f'{nm} is the same for the negated state', x == y, kind='lemma')
+    o.canary('canary: the closing decision does not depend on the current turn', rule(k, J, I_)[0] == rule(k + 1, J, I_)[0])
+
+
 # ---------------------------------------------------------------------------------------------
 @bounded('C03', 'symmetries', shards=16)
 def b_symmetries(ctx):
